@@ -51,7 +51,7 @@ def cmul(a, b):
     return re, im
 
 
-def mk_channel(ctx, ftype, T, how, val, K=None, sigma=None):
+def mk_channel(ctx, ftype, T, how, val, K=None, sigma=None, stray_sigma=None):
     from kaira.channels.analog import FlatFadingChannel
 
     kw, target, snr_lin = N._configure(ctx, how, val)
@@ -59,6 +59,8 @@ def mk_channel(ctx, ftype, T, how, val, K=None, sigma=None):
         kw["k_factor"] = K
     if ftype == "lognormal":
         kw["shadow_sigma_db"] = sigma
+    elif stray_sigma is not None:
+        kw["shadow_sigma_db"] = stray_sigma  # documented as "used only when fading_type='lognormal'": must have no effect here
     return FlatFadingChannel(ftype, T, **kw), target, snr_lin
 
 
@@ -148,6 +150,9 @@ def _gen_cfgs(tier):
         out.append(Cfg("generate", "rician", 2, 3, 2, K))
     if tier == "thorough":
         out += [Cfg("generate", "rayleigh", 3, 7, 3, 0), Cfg("generate", "rician", 3, 5, 4, "sym")]
+    # option interaction: a shadowing sigma handed to a Rayleigh / Rician channel (one shared configuration dict) is documented as
+    # unused; the gains must keep the Rayleigh / Rician law
+    out += [Cfg("generate", "rayleigh", 2, 3, 2, 0, "stray_shadow_sigma_6dB"), Cfg("generate", "rician", 2, 3, 2, 2.0, "stray_shadow_sigma_6dB")]
     return out
 
 
@@ -177,7 +182,8 @@ def _generate_ln(ctx, cfg):
 
 @obligation("C13.generate", function=FF + "_generate_fading_coefficients", configs=_gen_cfgs, max_paths=64, timeout_ms=60000)
 def generate(ctx, cfg):
-    _, ftype, B, L, T, par = cfg
+    _, ftype, B, L, T, par = cfg[:6]
+    stray = 6.0 if len(cfg) > 6 else None
     nb = -(-L // T)
     K = None
     with ctx.sym():
@@ -187,7 +193,7 @@ def generate(ctx, cfg):
                 ctx.assume(S.le(0, K))
             else:
                 K = float(par)
-        chan, _, _ = mk_channel(ctx, ftype, T, "P", 0.5, K=K, sigma=float(par) if ftype == "lognormal" else None)
+        chan, _, _ = mk_channel(ctx, ftype, T, "P", 0.5, K=K, sigma=float(par) if ftype == "lognormal" else None, stray_sigma=stray)
     dev = torch.device("cpu")
     fn = chan._generate_fading_coefficients
     out = ctx.call(fn, B, L, dev)
